@@ -241,7 +241,12 @@ def encErr : ErrC → String
 def encOutcome (enc : α → String) : Outcome α → String
   | .ok v => "(ok " ++ enc v ++ ")"
   | .err e => encErr e
-  | .panic s => if s == "need-regex" then "(need-regex)" else "(panic)"
+  | .panic s =>
+    if s.startsWith "need-regex " then
+      match (s.drop 11).toString.splitOn " " with
+      | [p, t] => "(need-regex " ++ p ++ " " ++ t ++ ")"
+      | _ => "(panic)"
+    else "(panic)"
 
 def encLog (log : List (Call Value)) : String :=
   "(log" ++ String.join (log.map (fun c =>
